@@ -69,6 +69,7 @@ def check(ctx):
     handshake_waiter(ctx, L, Call(re.escape(M) + "::unlock"), "handshake", "lock", park_err, exits_kind="trigger+park")
     handshake_waker(ctx, M + "::unpark_one", Call(re.escape(M) + "::unlock"), "waker", "lock")
     syncblocker_rules(ctx)
+    shared.wakes_dequeued_waiter(ctx, M)
     shared.mpsc_pop_reports_empty_only_when_empty(ctx)     # the waiter queue itself: unlock's pop must find the registered waiter
     # the waiter set consumer side: pop only by the holder
     ctx.who_may_call(MQ_MPSC + "pop", None, "x", "x") if False else None
